@@ -18,20 +18,45 @@ def run(ctx):
     ok = ctx.check_theorems()
     if not ok:
         ctx.broken_obligation('Properties_C03.vo', getattr(ctx, 'broken', {}))
-    E = Engine(ctx)
+    E = Engine(ctx, with_gen_api=True)
     rng = ctx.rng
+    if ctx.replay_in:
+        from .builder_engine import replay
+        replay(E, ctx)
+        return
     cases = []
     n = 220 if not ctx.thorough else 2500
     for s in E.corpus:
         if s.name not in E.BC: continue
         for i in range(n):
             cases.append(E.make_case(rng, s, size=rng.choice([0.3, 1.0, 2.5])))
+        # the GENERATED builder api: <T>_start / <T>_<f>_add (default elision) / _force_add / <T>_end, union and union-vector adds,
+        # nested struct roots through <T>_<f>_create_as_root
+        for i in range(n):
+            c = E.make_case(rng, s, size=rng.choice([0.3, 1.0]), gen_api=True, klass='generated-api')
+            cases.append(c)
         for st in s.structs:
             for k in range(4 if not ctx.thorough else 30):
                 cases.append(E.make_case(rng, s, root=st))
         for i in range(5 if not ctx.thorough else 50):
             cases.append(E.make_case(rng, s, maxdepth=rng.choice([4, 5]), size=rng.choice([1.0, 4.0]), klass='deep'))
     E.run_builds(cases)
+    # probe (full UBSan incl. alignment): a struct with force_align 16 written through the generated <struct>_create
+    if 'bnest' in E.HP:
+        s = E.by_name['bnest']
+        ti, fields = s.table_index['Outer'], s.live_fields('Outer')
+        fj = [j for j, f in enumerate(fields) if f.name == 'ns'][0]
+        fd = [j for j, f in enumerate(fields) if f.name == 'd'][0]
+        # an 8 byte field first, so that the struct frame starts at data-stack offset 8
+        line = 'build X:1:0:- B:-:0:0 Gs:%d Gf:%d:%d:0000000000000840 Gn:%d:%d:%s Ge:%d E:2' % (ti, ti, fd, ti, fj, '01000000000000000000000000000840', ti)
+        r = lib.run_harness_resilient(E.HP['bnest'], [line])[0]
+        ctx.count(line, klass='probe-generated-struct-alignment')
+        if r.startswith('CRASH') and 'misaligned' in r:
+            ctx.violation('generated-builder-misaligned-struct-access',
+                          'the generated builder writes a struct with force_align 16 through a misaligned pointer into the builder data stack (UBSan): ' + r[6:300],
+                          {'harness_line': line, 'schema': 'bnest', 'stderr': r[:1500]})
+        elif not r.startswith('OK'):
+            ctx.violation('probe-failed', 'generated-api probe failed: ' + r[:300], {'harness_line': line})
     dump_items, dump_cases, dec_lines = [], [], []
     nshared = 0
     for c in cases:
